@@ -9,6 +9,7 @@ import Driver.Mem
 import Driver.FileIO
 import Driver.Det
 import Driver.Util
+import Driver.Listing
 
 def dispatch (line : String) : String :=
   match (line.trimAscii.toString.splitOn " ").filter (· ≠ "") with
@@ -40,6 +41,7 @@ def dispatch (line : String) : String :=
   | "detold" :: args => Driver.Det.handleBefore args
   | "util" :: args => Driver.Util.handle args
   | "unum" :: args => Driver.Util.handleNum args
+  | "lst" :: args => Driver.Listing.handle args
   | _ => "bad-op"
 
 partial def loop (h : IO.FS.Stream) (out : IO.FS.Stream) : IO Unit := do
